@@ -6,11 +6,13 @@ the *running* module."""
 def emit():
     import importlib
     ast_nodes = importlib.import_module('xlcalculator.ast_nodes')
-    v = getattr(ast_nodes, 'MAX_EMPTY')
-    if not (isinstance(v, int) and not isinstance(v, bool) and v >= 0):
-        raise ValueError(f'ast_nodes.MAX_EMPTY is not a natural number: {v!r}')
+    from ._lean import probe_max_empty
+    v = probe_max_empty()       # by behaviour (the constant may be renamed or held differently)
+    named = getattr(ast_nodes, 'MAX_EMPTY', None)
+    if isinstance(named, int) and not isinstance(named, bool) and named != v:
+        raise ValueError(f'ast_nodes.MAX_EMPTY = {named!r} but ranges are read through runs of {v} empty cells')
     body = ('namespace XlVerif.Gen.C14\n'
-            '/-- `ast_nodes.MAX_EMPTY` -/\n'
+            '/-- `ast_nodes.MAX_EMPTY`, PROBED: the longest run of empty cells behind which a range is still read -/\n'
             f'def maxEmpty : Nat := {int(v)}\n'
             'end XlVerif.Gen.C14\n')
     return {'C14Consts': body}
